@@ -127,7 +127,7 @@ func main() {
 		if *tier == "quick" {
 			*budget = 150
 		} else {
-			*budget = 1500
+			*budget = 900
 		}
 	}
 	deadline = time.Now().Add(time.Duration(*budget) * time.Second)
